@@ -32,6 +32,9 @@ import (
 	"github.com/B1NARY-GR0UP/originium/utils"
 )
 
+// suffix of a sstable file which is not completely written yet
+const _tmpSuffix = ".tmp"
+
 type levelManager struct {
 	mu sync.Mutex
 
@@ -81,6 +84,12 @@ func (lm *levelManager) recover() int64 {
 	for _, file := range files {
 		if !file.IsDir() && path.Ext(file.Name()) == ".db" {
 			dbFiles = append(dbFiles, file.Name())
+		}
+		// leftover of a sstable write interrupted by a crash
+		if !file.IsDir() && path.Ext(file.Name()) == _tmpSuffix {
+			if err = os.Remove(path.Join(lm.dir, file.Name())); err != nil {
+				lm.logger.Panicf("failed to remove %s: %v", file.Name(), err)
+			}
 		}
 	}
 
@@ -281,29 +290,36 @@ func (lm *levelManager) flushToL0(kvs []types.Entry) error {
 	lm.levels[0].PushBack(th)
 
 	// file name format: level-idx.db
-	fd, err := os.OpenFile(lm.fileName(0, th.levelIdx), os.O_CREATE|os.O_RDWR|os.O_TRUNC, 0600)
+	return lm.writeTable(lm.fileName(0, th.levelIdx), tableBytes)
+}
+
+// writeTable publish a sstable atomically:
+// the file shows up under its name only after it is complete and synced
+func (lm *levelManager) writeTable(name string, tableBytes []byte) error {
+	tmp := name + _tmpSuffix
+	fd, err := os.OpenFile(tmp, os.O_CREATE|os.O_RDWR|os.O_TRUNC, 0600)
 	if err != nil {
 		return err
 	}
-	defer func() {
-		if err = fd.Close(); err != nil {
-			lm.logger.Errorf("failed to close file: %v", err)
-		}
-	}()
 
 	// write sstable
-	_, err = fd.Write(tableBytes)
-	if err != nil {
+	if _, err = fd.Write(tableBytes); err != nil {
+		_ = fd.Close()
 		return err
 	}
 
 	// os sync
 	if err = fd.Sync(); err != nil {
 		lm.logger.Errorf("failed to sync file: %v", err)
+		_ = fd.Close()
 		return err
 	}
 
-	return nil
+	if err = fd.Close(); err != nil {
+		return err
+	}
+
+	return os.Rename(tmp, name)
 }
 
 func (lm *levelManager) checkAndCompact() {
